@@ -264,6 +264,11 @@ template <typename PSET>
 void
 Pointset_Powerset<PSET>::add_space_dimensions_and_embed(dimension_type m) {
   Pointset_Powerset& x = *this;
+  check_space_dimension_overflow(m, max_space_dimension() - x.space_dim,
+                                 "PPL::Pointset_Powerset::",
+                                 "add_space_dimensions_and_embed(m)",
+                                 "adding m new space dimensions exceeds "
+                                 "the maximum allowed space dimension");
   for (Sequence_iterator si = x.sequence.begin(),
          s_end = x.sequence.end(); si != s_end; ++si) {
     si->pointset().add_space_dimensions_and_embed(m);
@@ -276,6 +281,11 @@ template <typename PSET>
 void
 Pointset_Powerset<PSET>::add_space_dimensions_and_project(dimension_type m) {
   Pointset_Powerset& x = *this;
+  check_space_dimension_overflow(m, max_space_dimension() - x.space_dim,
+                                 "PPL::Pointset_Powerset::",
+                                 "add_space_dimensions_and_project(m)",
+                                 "adding m new space dimensions exceeds "
+                                 "the maximum allowed space dimension");
   for (Sequence_iterator si = x.sequence.begin(),
          s_end = x.sequence.end(); si != s_end; ++si) {
     si->pointset().add_space_dimensions_and_project(m);
@@ -348,6 +358,11 @@ void
 Pointset_Powerset<PSET>::expand_space_dimension(Variable var,
                                                 dimension_type m) {
   Pointset_Powerset& x = *this;
+  check_space_dimension_overflow(m, max_space_dimension() - x.space_dim,
+                                 "PPL::Pointset_Powerset::",
+                                 "expand_space_dimension(v, m)",
+                                 "adding m new space dimensions exceeds "
+                                 "the maximum allowed space dimension");
   for (Sequence_iterator si = x.sequence.begin(),
          s_end = x.sequence.end(); si != s_end; ++si) {
     si->pointset().expand_space_dimension(var, m);
